@@ -1,5 +1,5 @@
 #!/bin/bash
-# usage: tools/refactor_canary.sh [refactor-1|refactor-2]
+# usage: tools/refactor_canary.sh [refactor-1|refactor-2|refactor-3]
 # Applies canaries/<name>.diff (meaning-preserving edits) to a scratch copy of /repo and runs every registered quick check
 # against it.  Expected: every check exits 0 and prints no VIOLATION line.
 set -u
